@@ -66,21 +66,37 @@ def gen_tcase(rng: random.Random, main_gen_cls, value_types):
 
 
 # ---------------------------------------------------------------- reference rule (independent of Coq)
-def ref_types(ctors):
-    """accepted? per construction: name is a str, (site, name) not attempted before with a str name
-    that got past the duplicate test, metadata None or all keys str and all values types.
-    (As in the code, an attempt refused because of its metadata has reserved the name.)"""
-    seen = set()
+def ref_types(ctors, strict=True):
+    """accepted? per construction, by the documented rules: name is a str, no event type with this
+    (site, name) exists, metadata None or all keys str and all values types.  One point the
+    documentation leaves open: the code registers the name before it looks at the metadata, so after
+    an attempt refused because of its metadata the name stays taken.  strict=True answers as the
+    pinned code does (refused); strict=False answers None (either outcome is acceptable)."""
+    defined, burnt, unknown = set(), set(), set()
     out = []
     for site, name, md in ctors:
         if not isinstance(name, int):
             out.append(False)
             continue
-        if (site, name) in seen:
+        if (site, name) in unknown:
+            out.append(None)
+            continue
+        if (site, name) in defined:
             out.append(False)
             continue
-        seen.add((site, name))
-        out.append(md is None or all(k < 4 and not str(v).startswith("nt:") for k, v in md))
+        md_ok = md is None or all(k < 4 and not str(v).startswith("nt:") for k, v in md)
+        if (site, name) in burnt:
+            if strict or not md_ok:
+                out.append(False)
+            else:
+                out.append(None)
+                unknown.add((site, name))
+            continue
+        if md_ok:
+            defined.add((site, name))
+        else:
+            burnt.add((site, name))
+        out.append(md_ok)
     return out
 
 
@@ -147,17 +163,19 @@ def run_tcase(ps, case, helpers):
 def judge_tcase(case, tobs, eobs, helpers):
     """reference verdicts -> list of (signature, what)"""
     out = []
-    exp = ref_types(case["ctors"])
+    exp = ref_types(case["ctors"], strict=False)
     created_md = []
     for (site, name, md), ok, o in zip(case["ctors"], exp, tobs):
-        if ok:
+        if o[0] == "accepted":
             created_md.append(md)
         if o[0] == "other":
             out.append(("event-type-unexpected-exception", f"EventType construction {[site, name, md]} raised {o[1]}"))
+        elif ok is None:
+            continue
         elif ok and o[0] != "accepted":
-            out.append(("event-type-rejected-wrongly", f"EventType(site={SITE_NAMES[site]}, name#{name}, metadata={md}) refused; constructions so far {case['ctors']}"))
+            out.append(("event-type-rejected-wrongly", f"EventType(site={SITE_NAMES[site]}, name#{name}, metadata={md}) refused; constructions {case['ctors']}"))
         elif not ok and o[0] == "accepted":
-            out.append(("event-type-accepted-wrongly", f"EventType(site={SITE_NAMES[site]}, name={name}, metadata={md}) accepted; constructions so far {case['ctors']}"))
+            out.append(("event-type-accepted-wrongly", f"EventType(site={SITE_NAMES[site]}, name={name}, metadata={md}) accepted; constructions {case['ctors']}"))
         elif ok and (o[1] != site or o[2] != name or not o[3]):
             out.append(("event-type-fields-wrong", f"EventType(site={SITE_NAMES[site]}, name#{name}) reports defining_class/name/metadata {o[1:]}"))
     if out:
